@@ -1,30 +1,24 @@
-(* C06: "temporaries are always written before they are read" as a boolean check on an emitted effect:
-   definite assignment (da_effect, proofs/SortSound.v) with every local that is NOT an h_tmpN temporary taken as assigned. *)
+(* C06: "temporaries are always written before they are read" as the boolean check the harness evaluates on every
+   emitted effect: the syntactic must-analysis tdefS (sem/TmpCheck.v, sound by proofs/TmpCheckProofs.v), bodies of
+   known callees included (call depth 4). *)
 From Coq Require Import ZArith NArith List Bool String.
-From RZ.sem Require Import RzIL.
-From RZ.proofs Require Import SortSound.
+From RZ.sem Require Import RzIL TmpCheck.
 Import ListNotations.
 Local Open Scope string_scope.
 
-Definition is_htmp (x : string) : bool := String.eqb (substring 0 5 x) "h_tmp".
-Definition tmp_def (rw : regwidth) (G0 : lenv) (e : effect) : bool :=
-  match wf_effect rw G0 e with
-  | Some G' => match da_effect rw (filter (fun p => negb (is_htmp (fst p))) G') e with Some _ => true | None => false end
-  | None => true      (* ill-sorted effects are C10's business *)
-  end.
+Definition tmp_def (subs : subenv) (e : effect) : bool :=
+  match tdefS subs 4 [] e with Some _ => true | None => false end.
 
-(* the check notices a temporary read before its write on a path (else arm) and after a loop that may run zero times; a
-   straight-line read before the first write makes wf_effect itself fail (the `sorted` oracle reports that) *)
-Definition rw32 : regwidth := fun _ => 32%N.
 Definition rd := RIsa "R" "d" false.
+Definition nosubs : subenv := fun _ => None.
 Example tmp_def_rejects_read_before_write :
-  wf_effect rw32 [] (ESeq (EWriteReg rd (PVarL "h_tmp0")) (ESetL "h_tmp0" (PBv true 32 1))) = None
-  /\ tmp_def rw32 [] (ESeq (EBranch (PBool true) (ESetL "h_tmp0" (PBv true 32 1)) EEmpty) (EWriteReg rd (PVarL "h_tmp0"))) = false
-  /\ tmp_def rw32 [] (ESeq (ERepeat (PBool false) (ESetL "h_tmp0" (PBv true 32 1))) (EWriteReg rd (PVarL "h_tmp0"))) = false.
+  tmp_def nosubs (ESeq (EWriteReg rd (PVarL "h_tmp0")) (ESetL "h_tmp0" (PBv true 32 1))) = false
+  /\ tmp_def nosubs (ESeq (EBranch (PBool true) (ESetL "h_tmp0" (PBv true 32 1)) EEmpty) (EWriteReg rd (PVarL "h_tmp0"))) = false
+  /\ tmp_def nosubs (ESeq (ERepeat (PBool false) (ESetL "h_tmp0" (PBv true 32 1))) (EWriteReg rd (PVarL "h_tmp0"))) = false.
 Proof. repeat split; vm_compute; reflexivity. Qed.
 Example tmp_def_accepts_write_then_read :
-  tmp_def rw32 [] (ESeq (ESetL "h_tmp0" (PBv true 32 1)) (EWriteReg rd (PVarL "h_tmp0"))) = true
-  /\ tmp_def rw32 [] (ESeq (EBranch (PBool true) (ESetL "h_tmp0" (PBv true 32 1)) (ESetL "h_tmp0" (PBv true 32 2))) (EWriteReg rd (PVarL "h_tmp0"))) = true
+  tmp_def nosubs (ESeq (ESetL "h_tmp0" (PBv true 32 1)) (EWriteReg rd (PVarL "h_tmp0"))) = true
+  /\ tmp_def nosubs (ESeq (EBranch (PBool true) (ESetL "h_tmp0" (PBv true 32 1)) (ESetL "h_tmp0" (PBv true 32 2))) (EWriteReg rd (PVarL "h_tmp0"))) = true
   (* a C local assigned in one arm only is not a temporary: not this clause's business *)
-  /\ tmp_def rw32 [] (ESeq (EBranch (PBool true) (ESetL "a" (PBv true 32 1)) EEmpty) (EWriteReg rd (PVarL "a"))) = true.
+  /\ tmp_def nosubs (ESeq (EBranch (PBool true) (ESetL "a" (PBv true 32 1)) EEmpty) (EWriteReg rd (PVarL "a"))) = true.
 Proof. repeat split; vm_compute; reflexivity. Qed.
